@@ -555,11 +555,6 @@ Section Collect.
   Qed.
 End Collect.
 
-Ltac inv_field H E :=
-  match goal with
-  | Hok : field_ok ?f |- _ => destruct (field_ok_inv f Hok) as (_ & H1 & H2 & H3 & H4 & H5 & H6 & H7 & H8 & H9)
-  end.
-
 Theorem collect_decoded hd fs : Forall field_ok fs -> no_duplicates fs ->
   decoded (collect_header_fields (known_list fs) (hdr_of hd)) fs.
 Proof.
